@@ -184,6 +184,37 @@ def shrink(check, choices, target, mode=None, budget_s=25.0, max_execs=3000):
 # worker
 # ------------------------------------------------------------------------------------------
 
+_fresh_n = [0]
+
+
+def fresh_has_violation(prop, fw, mode, choices, target, tmpdir):
+    """Does this choice sequence show the violation (clause, sig) when run on its own in a fresh interpreter?
+    (A run that only fails after other runs in the same process depends on process-global state, and its choice
+    sequence is no replay.)  Returns (bool, digest or None)."""
+    import subprocess
+    _fresh_n[0] += 1
+    path = os.path.join(tmpdir, "fresh-%d-%d.json" % (os.getpid(), _fresh_n[0]))
+    with open(path, "w") as f:
+        json.dump({"property": prop, "framework": fw, "mode": mode, "choices": choices}, f)
+    here = os.path.dirname(os.path.dirname(os.path.abspath(__file__)))
+    try:
+        p = subprocess.run([sys.executable, "-u", "-m", "sim.worker", json.dumps({"path": path}), "replay"], cwd=here,
+                           capture_output=True, text=True, timeout=300)
+    except Exception:  # noqa
+        return False, None
+    finally:
+        try:
+            os.unlink(path)
+        except OSError:
+            pass
+    for line in p.stdout.splitlines():
+        if line.startswith("REPLAY-RESULT "):
+            res = json.loads(line[len("REPLAY-RESULT "):])
+            hit = any(v[0] == target[0] and v[1] == target[1] for v in res["violations"])
+            return hit, res["digest"]
+    return False, None
+
+
 def worker_main(argv):
     import faulthandler
     faulthandler.enable()
@@ -210,8 +241,10 @@ def worker_main(argv):
     stats = {
         "prop": prop, "fw": fw, "variant": variant, "windex": windex, "runs": 0, "steps": 0, "sim_time": 0.0,
         "nontrivial": 0, "probes": {}, "faults": {}, "violations": [], "known": {}, "harness_errors": [],
-        "samples": [], "wall_s": 0.0, "first_seed": None, "last_index": None, "modes": {},
+        "samples": [], "wall_s": 0.0, "first_seed": None, "last_index": None, "modes": {}, "nonrepro": [],
     }
+    tmpdir = os.path.dirname(os.path.abspath(out))
+    nonrepro = 0
     hashes = set()
     t0 = time.time()
     i = windex
@@ -260,10 +293,18 @@ def worker_main(argv):
                                                       "what": k.get("what", "")})
                 ent["count"] += 1
                 continue
-            new_violation = {"index": i, "seed": rs, "mode": mode, "clause": clause, "sig": sig, "detail": detail,
-                             "choices": r.choices, "digest": r.digest}
+            cand = {"index": i, "seed": rs, "mode": mode, "clause": clause, "sig": sig, "detail": detail,
+                    "choices": r.choices, "digest": r.digest}
+            # a violation counts only if its choice sequence shows it on its own in a fresh interpreter
+            hit, _ = fresh_has_violation(prop, fw, mode, r.choices, (clause, sig), tmpdir)
+            if hit:
+                new_violation = cand
+            else:
+                nonrepro += 1
+                if len(stats["nonrepro"]) < 3:
+                    stats["nonrepro"].append(cand)
             break
-        if new_violation is not None:
+        if new_violation is not None or nonrepro >= 6:
             break
         i += nworkers
     if new_violation is not None:
@@ -271,6 +312,12 @@ def worker_main(argv):
         target = (v["clause"], v["sig"])
         best, execs, ok = shrink(check, v["choices"], target, mode=v["mode"],
                                  budget_s=args.get("shrink_s", 25.0))
+        hit, _ = fresh_has_violation(prop, fw, v["mode"], best, target, tmpdir)
+        v["minimised"] = True
+        if not hit:
+            # the minimised sequence only fails in this (used) process: keep the original one, which does replay
+            best = v["choices"]
+            v["minimised"] = False
         r3 = execute(check, replay=best, keep_trace=True, mode=v["mode"])
         v["min_choices"] = best
         v["min_execs"] = execs
